@@ -213,6 +213,14 @@ class Visit:
                                             "child `%s` of %s reaches the fold in %s only on some paths (the visit is conditional on "
                                             "something other than the child itself)" % (fname_, vname, fname), line_of(arm))
                                 continue
+                        if ok and self.strict:
+                            dropped = self._partly_dropped(arm, derived, vfields_all=set(hids))
+                            if dropped:
+                                self.rep.ob(self.rule, key, False,
+                                            "child `%s` of %s is taken apart in %s by a nested case split (`%s`) that ignores its `%s`: that "
+                                            "part of the child never reaches the fold (a qualifier `ns.` in front of a name is dropped and the "
+                                            "bare name looked up instead)" % (fname_, vname, fname, dropped[0], dropped[1]), line_of(arm))
+                                continue
                         self.rep.ob(self.rule, key, ok,
                                     ("child `%s` of %s reaches the fold in %s" if ok else
                                      "child `%s` of %s is bound but never passed to a fold function in %s")
@@ -236,6 +244,54 @@ class Visit:
                              "field itself, e.g. on a sibling being present)" if cond else
                              "field `%s` of %s never reaches a fold function in %s") % (f, last(sp), fname),
                             fn["sp"])
+
+    def _partly_dropped(self, arm, derived, vfields_all=None):
+        """(pattern text, field) when the arm inspects the child itself with a nested match over one of the folded enums and an
+        alternative of that match ignores (`_` / `..`) a child field of the variant it names - unless the whole child is also
+        handed to a fold function"""
+        from hir import ppat
+        body = arm["body"]
+        # the whole child handed to a fold function somewhere: nothing is lost
+        whole = vfields_all or set()
+        for c in nodes(body):
+            if c.get("k") in ("Call", "MethodCall") and self.is_fold_call(c):
+                for a in call_args(c):
+                    a0 = peel(a)
+                    while isinstance(a0, dict) and a0.get("k") == "Unary":
+                        a0 = peel(a0["e"])
+                    if isinstance(a0, dict) and a0.get("k") == "Path" and a0.get("hid") in whole:
+                        return None
+        for m in nodes(body, "Match"):
+            if "matches" in (m.get("mac") or []):
+                continue
+            if not any(ty_is((m.get("scrut_ty") or "").lstrip("&"), e) for e in self.enums):
+                continue
+            if not Flow.mentions(m["scrut"], derived):
+                continue
+            for a2 in m["arms"]:
+                if diverges(a2["body"]) or is_err_exit(a2["body"]):
+                    continue
+                for alt in pat_alternatives(a2["pat"]):
+                    altp = pat_strip(alt)
+                    vp = pat_variant(altp)
+                    if not vp:
+                        continue
+                    for enum in self.enums:
+                        try:
+                            adt = self.F.adt(enum)
+                        except Exception:
+                            continue
+                        for v in adt["variants"]:
+                            if norm_path(v["path"]) != vp:
+                                continue
+                            bound = pat_fields(altp)
+                            for fld in v["fields"]:
+                                if not self.is_child(vp, fld["name"], fld["ty"]) or self.is_leaf(vp, fld["name"], fld["ty"]):
+                                    continue
+                                sub = bound.get(fld["name"])
+                                if sub is None or pat_strip(sub).get("k") == "Wild":
+                                    return (ppat(altp)[:60], fld["name"])
+        return None
 
     def _struct_field_uses(self, body, fl, fold_calls, sp):
         """set of fields of record type sp that reach a fold call in this fn; None if the fn never
